@@ -3,6 +3,7 @@
  * Clauses of C05 (-k N budget, waits for what runs, exit status), C06 (only waits when something runs), C20 (started/finished reports), C07 (interrupt status). */
 #define NE 3
 static Edge vf_e[NE]; static bool vf_started_[NE], vf_reaped[NE], vf_succeeded[NE]; static int vf_status_of[NE];
+static bool vf_holds[NE], vf_active[NE];      /* ghost: the edge holds a job slot (acquired by FindWork under a jobserver) / its command is running in the runner */
 static int vf_failures = 0, vf_first_failure = 0; static bool vf_any_failure_status[256];
 static int vf_startedge_calls = 0, vf_finish_calls = 0, vf_prepare = 0; static bool vf_fatal_path = false, vf_interrupted = false;
 static BuildConfig* vf_cfg = 0; static Builder* vf_b = 0;
@@ -19,9 +20,13 @@ Edge* Plan::FindWork() {                       /* contract (C06): NULL, or an ed
   int i = nondet_int(); __CPROVER_assume(i >= 0 && i < NE);
   if (must_offer) __CPROVER_assume(!vf_started_[i]);
   if (vf_started_[i]) return 0;
+  if (vf_b->jobserver_.p != 0) vf_holds[i] = true;          /* contract of FindWork under a jobserver: the returned edge holds an acquired slot */
   return &vf_e[i];
 }
-void Builder::Cleanup() { vf_cleanups++; }
+void Builder::Cleanup() {                      /* contract (RealCommandRunner::Abort -> ClearJobTokens): the slots of the commands STILL RUNNING are released */
+  vf_cleanups++;
+  for (int i = 0; i < NE; i++) if (vf_active[i]) { vf_holds[i] = false; vf_active[i] = false; }
+}
 bool Builder::StartEdge(Edge* edge, std::string* err) {
   int i = vf_index(edge);
   __CPROVER_assert(i >= 0 && !vf_started_[i], "pre StartEdge (C06): an edge is started at most once");
@@ -29,6 +34,7 @@ bool Builder::StartEdge(Edge* edge, std::string* err) {
   vf_startedge_calls++;
   if (i >= 0) vf_started_[i] = true;
   if (nondet_bool()) { *err = "mkdir failed"; vf_fatal_path = true; return false; }
+  if (i >= 0 && !vf_e[i].vf_phony) vf_active[i] = true;
   return true;
 }
 bool Builder::FinishCommand(BuildResult::CommandCompleted& result, std::string* err) {
@@ -36,6 +42,7 @@ bool Builder::FinishCommand(BuildResult::CommandCompleted& result, std::string* 
   __CPROVER_assert(i >= 0 && vf_started_[i] && !vf_reaped[i], "pre FinishCommand: a started, not yet reaped command");
   vf_finish_calls++;
   if (i >= 0) { vf_reaped[i] = true; if (result.status == ExitSuccess) vf_succeeded[i] = true; }
+  if (i >= 0) vf_holds[i] = false;                          /* contract of FinishCommand -> Plan::EdgeFinished (M3): the slot is given back on success and on failure */
   if (nondet_bool()) { *err = "log write error"; vf_fatal_path = true; return false; }
   return true;
 }
@@ -60,6 +67,7 @@ BuildResult CommandRunner::WaitForCommandOrJobserverToken(bool watch_jobserver) 
     __CPROVER_assume(vf_started_[i] && !vf_e[i].vf_phony && !vf_reaped[i]);
     int st = nondet_int(); __CPROVER_assume(st >= 0 && st <= 255);
     r.vf_cc.edge = &vf_e[i]; r.vf_cc.status = (ExitStatus)st; vf_status_of[i] = st;
+    vf_active[i] = false;                                    /* a reaped command is no longer among the runner's active edges */
     if (st != 0 && st != 130) { if (vf_failures == 0) vf_first_failure = st; vf_failures++; vf_any_failure_status[st] = true; }
   }
   if (k == 3 || (k == 1 && r.vf_cc.status == ExitInterrupted)) vf_interrupted = true;      /* a child killed by SIGINT/SIGTERM/SIGHUP reports 130: the build counts as interrupted */
@@ -70,6 +78,7 @@ extern "C" void harness() {
   Builder b; BuildConfig cfg; DiskInterface disk; Status status; CommandRunner runner; BuildLog blog;
   vf_cfg = &cfg; vf_b = &b;
   b.config_p_ = &cfg; b.disk_interface_ = &disk; b.status_ = &status; b.command_runner_.p = &runner; b.scan_.vf_bl = &blog;
+  static vf_JobserverClient jsclient; if (nondet_bool()) b.jobserver_.p = &jsclient;
   cfg.dry_run = false;
   { int k = nondet_int(); __CPROVER_assume(k >= 1 && k <= 3); cfg.failures_allowed = k; }        /* -k N, N >= 1 (-k 0 is mapped to INT_MAX by ninja.cc) */
   for (int i = 0; i < NE; i++) { vf_e[i].vf_phony = false; vf_e[i].vf_generator = nondet_bool(); }
@@ -85,6 +94,11 @@ extern "C" void harness() {
   int pending = 0; for (int i = 0; i < NE; i++) if (vf_started_[i] && !vf_e[i].vf_phony && !vf_reaped[i]) pending++;
   bool fatal = vf_fatal_path || (phony_done && !b.plan_.vf_ef_ret);
   __CPROVER_assert(vf_prepare == 1, "post: the queue is prepared once");
+  for (int i = 0; i < NE; i++) {
+    bool released_as_phony = false;        /* a phony edge is finished on the spot through plan_.EdgeFinished (the Plan stub records it), which gives the slot back */
+    for (int k = 0; k < VF_EV_CAP; k++) if (k < vf_ev_n && vf_ev_kind[k] == EV_PLAN_FINISHED && vf_ev_ptr[k] == (void*)&vf_e[i]) released_as_phony = true;
+    __CPROVER_assert(!vf_holds[i] || released_as_phony, "post C06: every job slot / jobserver token acquired for an edge has been given back when Build returns - on every path (success, failure, cannot start, interrupt)");
+  }
   __CPROVER_assert(status.vf_build_started == 1 && status.vf_build_finished == 1, "post C20: the build is reported started and finished exactly once on every path");
   if (vf_interrupted) {
     __CPROVER_assert(ret == ExitInterrupted && !err.empty(), "post C07: an interrupt ends the build with the interrupt status (130)");
